@@ -548,7 +548,8 @@ func inMutexUnlock(g *G, fn *ssa.Function, args []Value) Value {
 	}
 	ms.locked = false
 	g.release(&ms.vc)
-	g.yield("unlock")
+	// no scheduling point after an unlock: switching here is equivalent to switching at the
+	// goroutine's next synchronisation operation
 	return nil
 }
 
@@ -573,7 +574,6 @@ func inRUnlock(g *G, fn *ssa.Function, args []Value) Value {
 	}
 	ms.readers--
 	g.release(&ms.vc)
-	g.yield("runlock")
 	return nil
 }
 
